@@ -152,8 +152,16 @@ func (m *model) checkGasBound() {
 	}
 }
 
-func (m *model) base(name string) uint64 { return m.env.Sched.Base[name] }
-func (m *model) cost(name string) uint64 { return m.env.Sched.BuiltIn[name] }
+// the schedule that prices this call: the one the shard last accepted, unless this function object
+// was last told another one directly (Env.SchedOf)
+func (m *model) sched() GasSched {
+	if s, ok := m.env.SchedOf[m.c.Func]; ok {
+		return s
+	}
+	return m.env.Sched
+}
+func (m *model) base(name string) uint64 { return m.sched().Base[name] }
+func (m *model) cost(name string) uint64 { return m.sched().BuiltIn[name] }
 
 func (m *model) setCharge(ch ...uint64) {
 	m.charges = ch
